@@ -155,6 +155,13 @@ def compile_and_run(workdir, units, timeout=600):
     os.makedirs(workdir, exist_ok=True)
     bad, good = {}, []
     # syntax-check every unit on its own first (parallel), so that one bad program does not hide the others
+    results = {}
+    for lo in range(0, len(units), 16):      # sixteen compilers at a time
+        _compile_batch(workdir, units[lo:lo + 16], results, bad, timeout)
+    return results, bad
+
+
+def _compile_batch(workdir, units, results, bad, timeout):
     procs = []
     for idx, cpp, entries in units:
         body, calls = build_unit(idx, cpp, entries)
@@ -162,7 +169,6 @@ def compile_and_run(workdir, units, timeout=600):
         with open(path, 'w') as f:
             f.write(PRELUDE + body + 'int main() {\n' + '\n'.join(calls) + '\n\treturn 0;\n}\n')
         procs.append((idx, path, subprocess.Popen(['g++', '-std=c++20', '-O0', '-w', '-o', path[:-4], path], stdout=subprocess.PIPE, stderr=subprocess.STDOUT, text=True)))
-    results = {}
     for idx, path, p in procs:
         out, _ = p.communicate(timeout=timeout)
         if p.returncode != 0:
@@ -178,4 +184,4 @@ def compile_and_run(workdir, units, timeout=600):
                     results[(int(parts[0]), int(parts[1]), int(parts[2]))] = parts[3]
         except subprocess.TimeoutExpired:
             bad[idx] = 'run-time failure: timeout'
-    return results, bad
+
